@@ -26,8 +26,9 @@ import subprocess  # noqa: E402
 
 TIERS = {
     # runs, wall-clock cap [s] for the batch, determinism sample
-    "quick": {"runs": 3000, "cap": 40.0, "det": 8},
-    "thorough": {"runs": 400000, "cap": 900.0, "det": 32},
+    # sweep: (base scenarios, positions per fault kind, share of the cap)
+    "quick": {"runs": 3000, "cap": 40.0, "det": 8, "sweep": (3, 4, 0.25)},
+    "thorough": {"runs": 400000, "cap": 900.0, "det": 32, "sweep": (60, 12, 0.35)},
 }
 PER_RUN_TIMEOUT = 120
 
@@ -39,13 +40,16 @@ def _worker_init():
 
 
 def _worker(task):
-    seed, run, profile, prop, want_plan = task
+    seed, run, profile, prop, want_plan = task[:5]
+    clean, force = (task[5], task[6]) if len(task) > 5 else (None, None)
     faulthandler.dump_traceback_later(PER_RUN_TIMEOUT, exit=True)
     try:
         from worldsim import cases, plan as P
 
-        pl = P.make_plan(seed, run, profile)
+        pl = P.make_plan(seed, run, profile, clean=clean, force=force)
         res = cases.run_case(pl, prop)
+        res["force"] = force
+        res["clean_arg"] = clean
         if want_plan:
             res["plan_summary"] = cases.plan_summary(pl)
         return res
@@ -154,20 +158,44 @@ def do_replay(args):
     return 0
 
 
-def run_batch(prop, profile, seed, n_runs, cap, workers, sample_every, findings):
+def sweep_tasks(prop, profile, seed, n_bases, per_kind_cap):
+    """Systematic single-fault sweep: for fault-free base scenarios of the profile, every fault kind at every
+    opportunity (position) the planner offers, one fault per run."""
+    from worldsim import plan as P
+
+    tasks = []
+    for b in range(n_bases):
+        run = 1_000_000 + b
+        base = P.make_plan(seed, run, profile, clean=True)
+        opp = dict(base["opportunities"])
+        opp.setdefault("skew_offset", 1)
+        opp.setdefault("drift", 1)
+        tasks.append((seed, run, profile, prop, b == 0, True, None))
+        for kind in sorted(opp):
+            n = opp[kind]
+            idxs = list(range(n)) if n <= per_kind_cap else sorted(set(int(i * (n - 1) / (per_kind_cap - 1)) for i in range(per_kind_cap)))
+            for i in idxs:
+                tasks.append((seed, run, profile, prop, False, True, [(kind, i)]))
+    return tasks
+
+
+def run_batch(prop, profile, seed, n_runs, cap, workers, sample_every, findings, tasks=None):
     """Run the batch on a fork pool; returns (results, wall, capped)."""
     ctx = multiprocessing.get_context("fork")
     env.repo()  # import once, fork afterwards
     t0 = time.time()
     results = []
     capped = False
+    if tasks is not None:
+        n_runs = len(tasks)
     with cf.ProcessPoolExecutor(max_workers=workers, mp_context=ctx, initializer=_worker_init) as ex:
         pending = set()
         nxt = 0
         stop = False
         while (nxt < n_runs and not stop) or pending:
             while nxt < n_runs and len(pending) < workers * 3 and not stop:
-                pending.add(ex.submit(_worker, (seed, nxt, profile, prop, nxt % sample_every == 0)))
+                task = tasks[nxt] if tasks is not None else (seed, nxt, profile, prop, nxt % sample_every == 0)
+                pending.add(ex.submit(_worker, task))
                 nxt += 1
             done, pending = cf.wait(pending, timeout=5.0, return_when=cf.FIRST_COMPLETED)
             for fu in done:
@@ -227,7 +255,10 @@ def main():
     findings = load_findings()
     results, wall, capped = run_batch(prop, args.profile, args.seed, n_runs, cap, args.workers, 40, findings)
     clean_results, clean_wall, _ = run_batch(prop, "clean", args.seed, max(16, n_runs // 8), max(10.0, cap / 6), args.workers, 40, findings)
-    all_results = results + clean_results
+    sw = TIERS[args.tier]["sweep"]
+    sweep_results, sweep_wall, sweep_capped = run_batch(prop, args.profile, args.seed, 0, max(8.0, cap * sw[2]), args.workers, 40, findings,
+                                                        tasks=sweep_tasks(prop, args.profile, args.seed, sw[0], sw[1]))
+    all_results = results + clean_results + sweep_results
 
     harness = [r for r in all_results if "harness_error" in r]
     if harness:
@@ -289,7 +320,14 @@ def main():
             "simulated_runs": len(all_results),
             "fault_injecting_runs": len(results),
             "fault_free_runs": len(clean_results),
-            "runs_per_hour": round(len(all_results) / max(1e-9, wall + clean_wall) * 3600),
+            "single_fault_sweep": {
+                "runs": len(sweep_results),
+                "base_scenarios": len(set(r["run"] for r in sweep_results)),
+                "fault_kinds_forced": sorted(set(r["force"][0][0] for r in sweep_results if r.get("force"))),
+                "forced_faults_that_fired": sum(1 for r in sweep_results if r.get("force") and r.get("fired", {}).get(r["force"][0][0])),
+                "capped_by_wall_clock": sweep_capped,
+            },
+            "runs_per_hour": round(len(all_results) / max(1e-9, wall + clean_wall + sweep_wall) * 3600),
             "seeds": {"VERIF_SEED": args.seed, "run_indices": [0, max(r["run"] for r in results) if results else 0]},
             "simulated_seconds": round(sim_seconds, 1),
             "evaluator_steps": sum(r.get("n_evaluated", 0) for r in all_results),
@@ -319,8 +357,8 @@ def main():
     for fid, (f, n) in sorted(known_hits.items()):
         print("KNOWN-FINDING: property=%s %s [%s, seen %d times]" % (prop, f["what"], fid, n))
 
-    print("runs=%d (faulty %d, fault-free %d) nontrivial=%d steps=%d wall=%.1fs runs/h=%d traces=%d" % (
-        len(all_results), len(results), len(clean_results), len(nontrivial), evidence["coverage"]["evaluator_steps"],
+    print("runs=%d (faulty %d, fault-free %d, sweep %d) nontrivial=%d steps=%d wall=%.1fs runs/h=%d traces=%d" % (
+        len(all_results), len(results), len(clean_results), len(sweep_results), len(nontrivial), evidence["coverage"]["evaluator_steps"],
         total_wall, evidence["coverage"]["runs_per_hour"], len(traces)), flush=True)
 
     if not new_hits:
@@ -330,18 +368,22 @@ def main():
     # ---- report the first violation with a minimised replay file -------------------------------------
     new_hits.sort(key=lambda rv: (rv[0]["profile"] != "clean", rv[0]["run"]))
     r, v = new_hits[0]
-    plan = P.make_plan(r["seed"], r["run"], r["profile"])
+
+    def regen():
+        return P.make_plan(r["seed"], r["run"], r["profile"], clean=r.get("clean_arg"), force=r.get("force"))
+
+    plan = regen()
     used = 0
     if not args.no_minimise:
         try:
             plan, used = ddmin.minimise(plan, prop, v)
         except Exception as e:  # noqa
             sys.stderr.write("minimisation failed (%s); reporting the unminimised plan\n" % e)
-            plan = P.make_plan(r["seed"], r["run"], r["profile"])
+            plan = regen()
     final = cases.run_case(plan, prop)
     same = [x for x in final.get("violations", []) if cases.signature_class(x) == cases.signature_class(v)]
     if not same:
-        plan = P.make_plan(r["seed"], r["run"], r["profile"])
+        plan = regen()
         final = cases.run_case(plan, prop)
         same = [x for x in final.get("violations", []) if cases.signature_class(x) == cases.signature_class(v)] or [v]
     rep_dir = os.path.join(HERE, "replays")
